@@ -522,6 +522,7 @@ void ExtrapolatedSmootherTake::solveCircleSection(const int i_r, Vector<double>&
     }
     // Move updated values to x
     std::move(temp.begin() + start, temp.begin() + end, x.begin() + start);
+    VERIF_RANGE(x.begin() + start, end - start, true);
 }
 
 void ExtrapolatedSmootherTake::solveRadialSection(const int i_theta, Vector<double>& x, Vector<double>& temp,
@@ -537,6 +538,7 @@ void ExtrapolatedSmootherTake::solveRadialSection(const int i_theta, Vector<doub
     }
     // Move updated values to x
     std::move(temp.begin() + start, temp.begin() + end, x.begin() + start);
+    VERIF_RANGE(x.begin() + start, end - start, true);
 }
 
 void ExtrapolatedSmootherTake::extrapolatedSmoothing(Vector<double>& x, const Vector<double>& rhs, Vector<double>& temp)
